@@ -213,19 +213,19 @@ Proof.
   - destruct (IH _ Hrest) as (ds & -> & Fd). rewrite Hd. exists (d :: ds). split; [reflexivity|constructor; assumption].
 Qed.
 
-Lemma wspec_run {A} (m : W A) Q s a s' : wspec m Q -> winv s -> m s = OK (a, s') -> winv s' /\ pool_ext (w_pool s) (w_pool s') /\ Q (w_pool s') a.
+Lemma wspec_run {A} (m : W A) Q s a s' : wspec m Q -> winv s -> m s = WOK (a, s') -> winv s' /\ pool_ext (w_pool s) (w_pool s') /\ Q (w_pool s') a.
 Proof. intros H. apply H. Qed.
 
 Lemma winv_new : winv wst_new.
 Proof. constructor; cbn [wst_new w_pool w_bsm pool_new p_inner]; [apply pool_new_inv|constructor|constructor|cbn; lia]. Qed.
 
 Theorem write_class_decodes t bs aux :
-  cclass_ok t = true -> write_class_aux t = OK (bs, aux) ->
+  cclass_ok t = true -> write_class_aux t = WOK (bs, aux) ->
   exists d, facts_of t aux = Some d /\ parse_class bs = Some d.
 Proof.
   intros Hok Hw. pose proof Hok as Hok0. unfold cclass_ok in Hok. bsplit. okfacts.
   unfold write_class_aux in Hw.
-  match type of Hw with match ?body wst_new with _ => _ end = _ => destruct (body wst_new) as [[[[rest codes] tbl] sF]| |] eqn:Hbody; try discriminate end.
+  match type of Hw with match ?body wst_new with _ => _ end = _ => destruct (body wst_new) as [[[[rest codes] tbl] sF]|?c|] eqn:Hbody; try discriminate end.
   destruct (pool_bytes (w_pool sF)) as [pb|] eqn:Hpb; [|discriminate]. injection Hw as <- <-.
   (* run the body *)
   apply bind_ok in Hbody as (this & s1 & R1 & Hbody). destruct (wspec_run _ _ _ _ _ (put_class_spec (k_name t)) winv_new R1) as (I1 & E1 & Q1).
